@@ -163,7 +163,9 @@ func startProxyPair(t *testing.T, cfg config.ClusterConnConfig) (*proxyPair, err
 	cfg.Local.ConnectionType = config.ConnTypeTCP
 	cfg.Remote.ConnectionType = config.ConnTypeTCP
 	cfg.Local.TcpClient.ConnectionString = p.Local.Addr()
-	cfg.Remote.TcpClient.ConnectionString = p.Remote.Addr()
+	if cfg.Remote.TcpClient.ConnectionString == "" { // a caller may point the outbound client at its own (e.g. TLS) server
+		cfg.Remote.TcpClient.ConnectionString = p.Remote.Addr()
+	}
 	cfg.Local.TcpServer.ConnectionString = "127.0.0.1:0"
 	cfg.Remote.TcpServer.ConnectionString = "127.0.0.1:0"
 	if cfg.Name == "" {
